@@ -9,7 +9,7 @@ import threading
 import warnings
 
 LEVEL = "exploration"
-RULE = ("Trees: every task tree with <= T tasks (depth <= 3, fan-out <= 2 per nursery, 0..2 nested nurseries per task) x for each "
+RULE = ("Trees: (plus five shapes with leaf tasks waiting in to_thread.run_sync of a C-implemented callable) every task tree with <= T tasks (depth <= 3, fan-out <= 2 per nursery, 0..2 nested nurseries per task) x for each "
         "task: block in the innermost nursery body or in the nursery's __aexit__ x nursery-body ending in {plain statement, "
         "try/except, try/finally, conditional return, while loop, `while True: ... break`, `try: ... return` / except}; generated as source, run under trio.run, observed after "
         "wait_all_tasks_blocked(): extract(root_task, recurse_child_tasks=True) must be isomorphic to Trio's own tree "
@@ -87,6 +87,12 @@ def render(shape, choices):
         counter[0] += 1
         name = "task%d" % tid
         body = ["async def %s(rt):" % name, "    rt.enter(%d)" % tid]
+        if shape == "Q":
+            # a leaf that waits for a worker thread running a C-implemented callable (no Python frame of its own)
+            body.append("    rt.nq += 1")
+            body.append("    await trio.to_thread.run_sync(rt.q.get)")
+            defs.append("\n".join(body))
+            return name
         if not shape:
             body.append("    await trio.sleep_forever()")
             defs.append("\n".join(body))
@@ -130,6 +136,8 @@ def render(shape, choices):
 
 
 def count_choice_tasks(shape):
+    if shape == "Q":
+        return 0
     n = 1 if shape else 0
     for nur in shape:
         for k in nur:
@@ -141,8 +149,11 @@ class Rt(object):
     true = True
 
     def __init__(s):
+        import queue
         s.entered = []
         s._once = {}
+        s.q = queue.SimpleQueue()
+        s.nq = 0
 
     def enter(s, tid):
         s.entered.append(tid)
@@ -255,6 +266,8 @@ def run_tree(shape, choice_list):
                             problems.append("recurse_child_tasks=False: child is not a frameless stub with a root: %r" % (ch,))
             if [f.pyframe for f in st_stub.frames] != [f.pyframe for f in st.frames]:
                 problems.append("recurse_child_tasks=False changes the task's own frames")
+            for _ in range(rt.nq):
+                rt.q.put(1)   # let the worker threads finish
             nursery.cancel_scope.cancel()
     trio.run(main)
     return problems, counter[0], src
@@ -343,8 +356,12 @@ def hop_cases(maxd):
                 yield {"leg": "hops", "depth": d, "leaf": leaf, "origin": origin}
 
 
+QSHAPES = [[["Q"]], [["Q", []]], [[[]], ["Q"]], [[[["Q"]]]], [["Q", "Q"]]]
+
+
 def tree_cases(max_tasks, full_owners=2):
-    for shape in programs(max_tasks):
+    import itertools as _it
+    for shape in _it.chain(QSHAPES, programs(max_tasks)):
         n = count_choice_tasks(shape)
         # tasks that own nurseries
         owners = count_owner(shape)
@@ -354,6 +371,8 @@ def tree_cases(max_tasks, full_owners=2):
 
 
 def count_owner(shape):
+    if shape == "Q":
+        return 0
     n = 1 if shape else 0
     for nur in shape:
         for k in nur:
